@@ -26,7 +26,9 @@ from ..ref import repo_format as F
 HASHES = [None, {'name': 'blake2b', 'length': 16}, {'name': 'blake2b', 'length': 32}, {'name': 'blake2b', 'length': 64}, {'name': 'sha2', 'bits': 224},
           {'name': 'sha2', 'bits': 256}, {'name': 'sha2', 'bits': 384}, {'name': 'sha2', 'bits': 512}, {'name': 'sha3', 'bits': 224}, {'name': 'sha3', 'bits': 256},
           {'name': 'sha3', 'bits': 384}, {'name': 'sha3', 'bits': 512}]
-CIPHERS = [None, {'name': 'aes_gcm', 'key_bits': 128}, {'name': 'aes_gcm', 'key_bits': 192}, {'name': 'aes_gcm', 'key_bits': 256}, {'name': 'chacha20_poly1305'}]
+CIPHERS = [None, {'name': 'aes_gcm', 'key_bits': 128}, {'name': 'aes_gcm', 'key_bits': 192}, {'name': 'aes_gcm', 'key_bits': 256}, {'name': 'chacha20_poly1305'},
+           # documented but rarely used: a nonce size other than the default 96 bits
+           {'name': 'aes_gcm', 'key_bits': 256, 'nonce_bits': 128}, {'name': 'aes_gcm', 'key_bits': 128, 'nonce_bits': 64}]
 NAMES = ['a', 'b.bin', 'ünï', 'with space', '-dash', 'x.tmp', 'sub/c', 'sub/deep/d', 'e0', '日本',
          b'caf\xe9.txt'.decode('utf-8', 'surrogateescape'), b'sub/\xff\xfe'.decode('utf-8', 'surrogateescape')]   # legal file names that are not valid UTF-8
 
